@@ -122,7 +122,7 @@ def judge(bodies, env, sched, r, free=False):
                 v('wrong-reply', 'threads-error-name', 'call %d completed with unexpected error %s' % (i, rep['err']))
         if c['cancelled']:
             if c['notified'] and c['notify_step'] > c['cancel_step']:
-                v('cancelled-call-notified', 'cancel', 'call %d: notify function ran (step %d) after dbus_pending_call_cancel() had returned (step %d)' % (i, c['notify_step'], c['cancel_step']))
+                v('cancelled-call-notified', 'block-after-cancel' if ('block%d' % i) in bl else 'other-path', 'call %d: notify function ran (step %d) after dbus_pending_call_cancel() had returned (step %d)' % (i, c['notify_step'], c['cancel_step']))
             continue
         if c['completed'] and c['notified'] != 1:
             v('not-notified', 'threads', 'call %d is completed but its notify function ran %d times' % (i, c['notified']))
